@@ -304,39 +304,137 @@ func checkC11(c *Ctx) {
 				// It only does if the handler, after registering, waits on the Done() of the very context that function
 				// cancels: every blocking wait after the insert — here or in a helper the context is handed to — has
 				// such an arm.
-				var connCtx ssa.Value
-				if al, ok := rec.(*ssa.Alloc); ok && al.Referrers() != nil {
+				// The cancelled context is identified by a predicate over values of the handler: the first result of the
+				// context.With* call whose second result is stored in the record — made by the handler itself, or by a
+				// constructor it hands the cancel function to — or, when a constructor derives the context itself, the
+				// context member of the record that constructor stores it in.
+				var isConnCtx func(v ssa.Value) bool
+				withCtxOf := func(cancel ssa.Value) (ssa.Value, bool) {
+					ex, ok := unspill(cancel).(*ssa.Extract)
+					if !ok || ex.Index != 1 {
+						return nil, false
+					}
+					wc, ok := ex.Tuple.(*ssa.Call)
+					if !ok || !strings.HasPrefix(ir.CallName(wc), "context.With") || wc.Referrers() == nil {
+						return nil, false
+					}
+					for _, r3 := range *wc.Referrers() {
+						if e0, ok := r3.(*ssa.Extract); ok && e0.Index == 0 {
+							return e0, true
+						}
+					}
+					return nil, false
+				}
+				// stores into members of a freshly allocated record: member name -> stored value
+				memberStores := func(al *ssa.Alloc) map[string]ssa.Value {
+					out := map[string]ssa.Value{}
+					if al.Referrers() == nil {
+						return out
+					}
 					for _, r := range *al.Referrers() {
 						fa, ok := r.(*ssa.FieldAddr)
 						if !ok || fa.Referrers() == nil {
 							continue
 						}
-						if f, _, ok := ir.FieldOf(fa); !ok || !isCancelFunc(f.Type) {
+						f, _, ok := ir.FieldOf(fa)
+						if !ok {
 							continue
 						}
 						for _, rr := range *fa.Referrers() {
-							if st, ok := rr.(*ssa.Store); ok {
-								if ex, ok := unspill(st.Val).(*ssa.Extract); ok && ex.Index == 1 {
-									if wc, ok := ex.Tuple.(*ssa.Call); ok && strings.HasPrefix(ir.CallName(wc), "context.With") && wc.Referrers() != nil {
-										for _, r3 := range *wc.Referrers() {
-											if e0, ok := r3.(*ssa.Extract); ok && e0.Index == 0 {
-												connCtx = e0
-											}
-										}
-									}
-								}
+							if st, ok := rr.(*ssa.Store); ok && st.Addr == fa {
+								out[f.Name] = st.Val
 							}
 						}
 					}
+					return out
 				}
-				if connCtx != nil {
-					doneOf := func(ch, ctxv ssa.Value) bool {
-						oc := originCall(ch)
-						return oc != nil && ir.CallName(oc) == "(context.Context).Done" && unspill(oc.Call.Value) == ctxv
+				cancelMember := func(al *ssa.Alloc) (ssa.Value, bool) {
+					if st, ok := al.Type().Underlying().(*types.Pointer).Elem().Underlying().(*types.Struct); ok {
+						ms := memberStores(al)
+						for i := 0; i < st.NumFields(); i++ {
+							if isCancelFunc(st.Field(i).Type()) {
+								v, ok := ms[st.Field(i).Name()]
+								return v, ok
+							}
+						}
 					}
-					var waits func(f *ssa.Function, ctxv ssa.Value, from ssa.Instruction, d int)
+					return nil, false
+				}
+				undecided := ""
+				switch r := rec.(type) {
+				case *ssa.Alloc:
+					if cv, ok := cancelMember(r); ok {
+						if e0, ok := withCtxOf(cv); ok {
+							isConnCtx = func(v ssa.Value) bool { return unspill(v) == e0 }
+						} else {
+							undecided = "the cancel function stored in the record is not the result of a context.With* call of the handler"
+						}
+					}
+				case *ssa.Call:
+					k := ir.StaticCallee(r)
+					if k == nil || !c.P.IsLib(k) || k.Blocks == nil {
+						undecided = "the record comes from a call that cannot be resolved to a constructor of the library"
+						break
+					}
+					var results []ssa.Value
+					for _, b := range k.Blocks {
+						if ret, ok := b.Instrs[len(b.Instrs)-1].(*ssa.Return); ok && len(ret.Results) > 0 && b != k.Recover {
+							results = append(results, ir.Results(ret)[0])
+						}
+					}
+					for _, res := range results {
+						al, ok := ir.Unwrap(res).(*ssa.Alloc)
+						if !ok {
+							continue
+						}
+						cv, ok := cancelMember(al)
+						if !ok {
+							continue
+						}
+						if p, ok := unspill(cv).(*ssa.Parameter); ok {
+							for i, q := range k.Params {
+								if q == p && i < len(r.Call.Args) {
+									if e0, ok := withCtxOf(r.Call.Args[i]); ok {
+										isConnCtx = func(v ssa.Value) bool { return unspill(v) == e0 }
+									}
+								}
+							}
+						} else if e0, ok := withCtxOf(cv); ok {
+							// derived inside the constructor: reachable for the handler only through the member it is stored in
+							member := ""
+							for name, v := range memberStores(al) {
+								if unspill(v) == e0 {
+									member = name
+								}
+							}
+							if member != "" {
+								isConnCtx = func(v ssa.Value) bool {
+									f, base, ok := ir.LoadedField(unspill(v))
+									return ok && f.Name == member && sameValue(ir.Unwrap(base), rec)
+								}
+							} else {
+								isConnCtx = func(ssa.Value) bool { return false }
+							}
+						}
+					}
+					if isConnCtx == nil {
+						undecided = sprintf("the constructor %s does not store a cancel function that can be traced to a context.With* call", fname(k))
+					}
+				default:
+					undecided = "the registered record is neither allocated by the handler nor returned by a constructor"
+				}
+				if undecided != "" {
+					c.R.Violate("R-ends-on-cancel", "cancelled context of the record registered by "+fname(fn), c.Pos(ins.Pos),
+						sprintf("cannot identify the context that the cancel function of the record registered by %s cancels (%s): whether the handler ends when DELETE, a replacing stream or shutdown call that function is undecided", fname(fn), undecided))
+				}
+				if isConnCtx != nil {
+					doneOf := func(ch ssa.Value, is func(ssa.Value) bool) bool {
+						oc := originCall(ch)
+						return oc != nil && ir.CallName(oc) == "(context.Context).Done" && is(oc.Call.Value)
+					}
+					var waits func(f *ssa.Function, ctxv func(ssa.Value) bool, from ssa.Instruction, d int)
 					nWait := 0
-					waits = func(f *ssa.Function, ctxv ssa.Value, from ssa.Instruction, d int) {
+					waits = func(f *ssa.Function, ctxv func(ssa.Value) bool, from ssa.Instruction, d int) {
 						ir.EachInstr(f, func(_ *ssa.BasicBlock, _ int, in ssa.Instruction) {
 							if from != nil && !flow.Reaches(from, in) {
 								return
@@ -387,15 +485,19 @@ func checkC11(c *Ctx) {
 								}
 								var inner ssa.Value
 								for i, a := range x.Call.Args {
-									if unspill(a) == ctxv && i < len(sc.Params) {
+									if ctxv != nil && ctxv(a) && i < len(sc.Params) {
 										inner = sc.Params[i]
 									}
 								}
-								waits(sc, inner, nil, d+1)
+								if inner == nil {
+									waits(sc, nil, nil, d+1)
+								} else {
+									waits(sc, func(v ssa.Value) bool { return unspill(v) == inner }, nil, d+1)
+								}
 							}
 						})
 					}
-					waits(fn, connCtx, ins.Instr, 0)
+					waits(fn, isConnCtx, ins.Instr, 0)
 				}
 				// self tear-down deletes
 				for _, del := range fi.deletes {
